@@ -51,7 +51,7 @@ func (c *Ctx) stepTraces(provider string) *traceSet {
 	heap := map[*types.Var]aval{}
 	sst := st.Underlying().(*types.Struct)
 	for i := 0; i < sst.NumFields(); i++ {
-		if v, ok := init[sst.Field(i).Name()]; ok {
+		if v, ok := init[fieldName(sst.Field(i))]; ok {
 			heap[sst.Field(i)] = aStr(v)
 		}
 	}
@@ -555,7 +555,7 @@ func (c *Ctx) stageInputChannels(pkg string) map[string]string {
 		}
 		if s.fn == psi {
 			if id := stageOf(s.in); id != "" {
-				out[id] = s.ch.Name()
+				out[id] = fieldName(s.ch)
 			}
 			continue
 		}
@@ -565,7 +565,7 @@ func (c *Ctx) stageInputChannels(pkg string) map[string]string {
 				return
 			}
 			if id := stageOf(call); id != "" {
-				out[id] = s.ch.Name()
+				out[id] = fieldName(s.ch)
 			}
 		})
 	}
